@@ -129,7 +129,7 @@ func (propC08) Check(k *Kernel, cov *Coverage) *Violation {
 		}
 		for _, s := range c.Seen {
 			if s.JSONErr != "" {
-				return &Violation{Class: "ts-handler-input-not-contract-json", Signature: "C08|ts-handler-input-not-contract-json|" + pair,
+				return &Violation{Class: "ts-handler-input-not-contract-json", Signature: "C08|ts-handler-input-not-contract-json|" + pair + "|" + fieldShape(k.W, rpc, rpc.In, s.JSONErrField),
 					Detail: fmt.Sprintf("op %d %s: the object the TS route passed to the handler is not the contract JSON of the request type: %s: %s", c.Op.ID, c.Op.RPC, s.JSONErr, truncBytes(s.JSON))}
 			}
 		}
